@@ -5,7 +5,9 @@
 //   - requests the Lean oracle can answer (shape, offs, list, forname, fornamemaybe, fortype, new,
 //     newn, fmap, lens, lensd, refl) are piped to `oracle C0x` by the check and the results compared;
 //   - `chk …` lines carry the verdict of the direct oracle evaluated here on the real memory
-//     (`ok` or `FAIL …`); they are not sent to the model.
+//     (`ok` or `FAIL …`); they are not sent to the model.  `dpv …` lines list the optics of a lens request that
+//     were also run on valid (dereferenceable) values, and a `chk` line of a `lensd` request carries the write
+//     probes of a derivation that was accepted although it had to panic (both: deep.go, direct oracle only).
 //
 // checks/shapes.py also writes the sub-packages pa/v1, pb/v1, pc/v1 (import paths harness/pa/v1, ...) next to
 // this file: all three are `package v1` and declare types of the same names, so that shapes can hold DISTINCT
@@ -37,6 +39,9 @@ type Other struct{ X int }
 
 func main() {
 	debug.SetGCPercent(-1)
+	// a fault at a non-nil address (an optic that dereferences the byte patterns stored in a focus) becomes a
+	// recoverable panic of this goroutine instead of a fatal error: the harness survives and reports (deep.go)
+	debug.SetPanicOnFault(true)
 	out = bufio.NewWriterSize(os.Stdout, 1<<20)
 	defer out.Flush()
 	runAll()
@@ -417,6 +422,7 @@ func equal(a, b []byte) bool {
 type tuple struct {
 	wins  []string
 	fails []string
+	deep  []string // valid-value phase (deep.go): `<optic #>:<focus kind>:<d|i>` per optic it ran on
 }
 
 func (t *tuple) add(i int, win string, fails []string) {
@@ -432,12 +438,16 @@ func (t *tuple) finish(req string) string {
 		res = "FAIL " + strings.Join(t.fails, "; ")
 	}
 	emit("chk "+req, res)
+	if len(t.deep) > 0 {
+		emit("dpv "+req, strings.Join(t.deep, " "))
+	}
 	return "ok " + strings.Join(t.wins, " ")
 }
 
 func lensCase[S, A any](t *tuple, i int, l optics.Lens[S, A], views func(*S) []fieldView, focus []int) {
-	win, fails := testOptic(l.Get, l.Put, views, focus)
-	t.add(i, win, fails)
+	dfails, stat := deepPhase(rawOf(l, "Get", "Put", (*W[S])(nil), views), focus) // valid values (deep.go)
+	win, fails := guarded(func() (string, []string) { return testOptic(l.Get, l.Put, views, focus) })
+	t.addBoth(i, win, dfails, fails, stat)
 }
 
 func reflCase[S, A any](t *tuple, i int, r optics.Reflector[A], views func(*S) []fieldView, focus []int) {
@@ -452,8 +462,9 @@ func reflCase[S, A any](t *tuple, i int, r optics.Reflector[A], views func(*S) [
 		}
 		return p
 	}
-	win, fails := testOptic(get, put, views, focus)
-	t.add(i, win, append(fails, extra...))
+	dfails, stat := deepPhase(rawOf(r, "Gett", "Putt", (*W[S])(nil), views), focus) // valid values (deep.go)
+	win, fails := guarded(func() (string, []string) { return testOptic(get, put, views, focus) })
+	t.addBoth(i, win, dfails, append(fails, extra...), stat)
 }
 
 // window of the entry a lens was derived from, taken from hseq (what the unexported lens uses):
